@@ -41,7 +41,8 @@ OPS = ["occupancies", "states", "scenario-queries", "lookups", "lanelet-geometry
        "hash", "copy", "deepcopy", "pickle", "str", "write-xml", "write-pb", "render"]
 
 
-def deep_snapshot(sc, pps):
+def deep_snapshot(sc, pps, queries=True):
+    """queries=False: attributes only (nothing is asked of the objects that could compute or memoise anything)."""
     s = sn.snap_scenario(sc)
     for o in sc.obstacles:
         d = s["obstacles"][str(o.obstacle_id)]
@@ -65,14 +66,21 @@ def deep_snapshot(sc, pps):
         d["static_obstacles_on_lanelet"] = sn.idset(la.static_obstacles_on_lanelet)
         d["dynamic_obstacles_on_lanelet"] = ("s", repr(sorted((k, sorted(v)) for k, v in
                                                             la.dynamic_obstacles_on_lanelet.items())))
+        # the relation lists as they stand (their order is what the protobuf format stores)
+        d["successor_list"] = ("s", repr([int(x) for x in la.successor]))
+        d["predecessor_list"] = ("s", repr([int(x) for x in la.predecessor]))
     # answers of the spatial index at one interior point per lanelet (a read-only query, so part of what may not change)
     pts = [0.5 * (np.asarray(la.left_vertices)[0] + np.asarray(la.right_vertices)[1]) for la in
            sc.lanelet_network.lanelets]
-    if pts:
+    for tl in sc.lanelet_network.traffic_lights:
+        if tl.traffic_light_cycle is not None:
+            s["network"]["traffic_lights"][str(tl.traffic_light_id)]["cycle_active"] = (
+                "s", repr(tl.traffic_light_cycle.active))
+    if pts and queries:
         s["network"]["lookup_answers"] = ("s", repr([sorted(a) for a in sc.lanelet_network.find_lanelet_by_position(pts)]))
     for tl in sc.lanelet_network.traffic_lights:
         cyc = tl.traffic_light_cycle
-        if cyc is not None and cyc.cycle_elements:
+        if queries and cyc is not None and cyc.cycle_elements:
             d = s["network"]["traffic_lights"][str(tl.traffic_light_id)]
             d["cycle_init_timesteps"] = ("s", repr([int(v) for v in cyc.cycle_init_timesteps]))
             d["answers"] = ("s", ",".join(tl.get_state_at_time_step(t).name for t in range(0, 14)))
@@ -283,12 +291,15 @@ def check(r, ctx):
                     ctx.label("obstacles-assigned-to-lanelets")
                 except Exception as e:   # uncertain states etc.: C07's domain, not a mutation question
                     ctx.label("assignment-raised:" + type(e).__name__)
+            plain = deep_snapshot(sc, pps, queries=False)
             before = deep_snapshot(sc, pps)
-            # taking the snapshot only reads (attributes, occupancies, light states): a second one must be identical
-            diffs = sn.compare(before, deep_snapshot(sc, pps), lambda p: 0)
+            # taking the full snapshot asks queries (light states, index lookups): they only read - the attributes are
+            # as before, and a second full snapshot is identical
+            diffs = sn.compare(plain, deep_snapshot(sc, pps, queries=False), lambda p: 0) or sn.compare(
+                before, deep_snapshot(sc, pps), lambda p: 0)
             if diffs:
                 raise Violation("mutated-by:observation:%s" % sn.strip_indices(diffs[0][0]),
-                                "reading the observables twice: %s: %r -> %r" % diffs[0])
+                                "reading the observables: %s: %r -> %r" % diffs[0])
             exports = {}
             for fmt in r["export"]:
                 try:
@@ -352,6 +363,18 @@ def s_case(draw, tier=None, ops=None, max_ops=6):
         if "MAX_SPEED" in [m.name for m in gs.sign_enum_class(el["country"])]:
             sc["signs"][0]["elements"][0] = dict(el, name="MAX_SPEED", values=["13.89", "30"])
             sc["signs"][0]["virtual"] = False
+    # enrich: a fork - one lanelet gets a second successor (listed in ascending id order)
+    if len(sc["lanelets"]) >= 3 and draw(st.booleans()):
+        for la in sc["lanelets"]:
+            if len(la["succ"]) == 1:
+                others = sorted(l["id"] for l in sc["lanelets"] if l["id"] not in (la["id"], la["succ"][0]))
+                if others:
+                    extra_id = others[-1]
+                    la["succ"] = sorted(list(la["succ"]) + [extra_id])
+                    for l in sc["lanelets"]:
+                        if l["id"] == extra_id:
+                            l["pred"] = sorted(list(l["pred"]) + [la["id"]])
+                    break
     # enrich: a closed course - the last lanelet of a chain leads back into its first one (roundabout ring)
     if len(sc["lanelets"]) >= 2 and draw(st.integers(0, 3)) == 0:
         by_id = {l["id"]: l for l in sc["lanelets"]}
